@@ -230,7 +230,8 @@ PROPS = {
         "assumptions": ASSUME_COMMON,
     },
     "C01": {
-        "rule": ("each case: a scripted history (40-110 steps quick, up to 220 thorough; 22% extra 'rebuild an existing function along "
+        "rule": ("one case in three additionally: an EV* relation forest with power-of-two values (all products and quotients exact): each table built from two minterm orders, the second time with zeros written as doubles that underflow to 0 in single precision, must give one edge; edges of different tables must differ.  Every case: "
+                 "each case: a scripted history (40-110 steps quick, up to 220 thorough; 22% extra 'rebuild an existing function along "
                  "another route' steps: shuffled minterm collections, point-by-point accumulation, two half collections combined) over "
                  "2-4 forests of one value kind with few distinct values, followed by: release everything, clear caches, churn every "
                  "forest so that handles are recycled, rebuild remembered functions twice each.  After every step the new edge is "
@@ -242,7 +243,7 @@ PROPS = {
             "quick": [P("main", "asan", 600)],
             "thorough": [P("main", "asan", 3000)],
         },
-        "require_counters": ["canonicity_pairs_checked", "canonicity_pairs_equal_functions", "functions_rebuilt_after_churn", "handles_reissued",
+        "require_counters": ["evtimes_canonicity_cases", "canonicity_pairs_checked", "canonicity_pairs_equal_functions", "functions_rebuilt_after_churn", "handles_reissued",
                              "script_copies", "script_file_roundtrips"],
         "assumptions": ASSUME_COMMON,
     },
